@@ -2,7 +2,7 @@
 (* TLC-only definitions for Config.tla: the bounded families of abstract configurations, the layouts the model of
    the code reads them in, generation of vectors for the harness, and the lemmas about Meaning.
    Tier: "quick" | "thorough" | "dev" (the small family used by the sensitivity configs). *)
-EXTENDS Config, Json, SequencesExt
+EXTENDS Config, Json, SequencesExt, IOUtils
 
 CONSTANT Tier
 
@@ -110,10 +110,13 @@ FaultBase3 == Ast(FullRoot(3), <<>>, BlFor(AllScal))
 FamFaults(a) == Faults(a)
 BraceFaults(a) == { x \in Faults(a) : x.fault.cls \in {"MissingOpenBrace", "MissingCloseBrace"} }
 
+ReplayRecs(x) == ndJsonDeserialize(IOEnv.TRACE)     \* (a parameter keeps TLC from evaluating it when there is no file)
 Cases ==
   CASE Tier = "dev" ->
          FamPresence(0, 14) \cup FamDefault(Shapes4, 1) \cup FamTwoHosts({<<2, 1>>, <<7, 2>>}, {3})
          \cup { Plain(FaultBase2) } \cup FamFaults(FaultBase2) \cup BraceFaults(FaultBase1)
+    [] Tier = "replay" ->      \* the cases of a replay file (bin/check C15 --replay): Meaning is recomputed, not trusted
+         { ReplayRecs(0)[i].ast : i \in 1..Len(ReplayRecs(0)) }
     [] Tier = "quick" ->
          FamPresence(1, 13) \cup FamValues \cup FamDefault(Shapes13, 1) \cup FamDefault(Shapes4, 2)
          \cup FamOneHost(Shapes13, 1, Shapes4) \cup FamTwoHosts(Shapes4, {3}) \cup FamFull
